@@ -11,7 +11,7 @@ def run(ctx):
     ctx.rule = ("MC: as C08 (the scaled LZ11 format has all three reference layouts). impl->spec: all inputs over {a,b} up "
                 "to length %d and {a,b,c} up to %d, the empty input, and seeded structured inputs forcing each LZ11 length "
                 "form (runs 18/19, 274/275, 4098/4099, 5000; copies of 16/17/272/273/4096/4097 bytes at distances up to "
-                "4097), compressed by the real LZ13 compressor in an isolated worker under BOTH profiles (release = "
+                "4097), compressed by the real LZ13 compressor (LZ13CompressionFormat and CompressionFormat::LZ13) in an isolated worker under BOTH profiles (release = "
                 "wrapping, checked = overflow checks); wrapper byte 0 = 0x13, then the TLA+ decoder machine (LZ11, real "
                 "constants) from offset 4. Non-trivial = event whose stream made the decoder take >= 1 BackRef step "
                 "(counted by TLC)." % (ctx.pick(11, 14), ctx.pick(7, 9)))
